@@ -104,10 +104,9 @@ func (r *armRule) errorCodeSite(x *core.TSCtx) (string, bool) {
 	ec := r.c.P.Func("wire", "ErrorCode")
 	for _, s := range x.Stack {
 		if core.StaticCallee(s) == ec {
-			arg := s.Common().Args[1]
-			// keyed by the message arm and the origin of the error, not by the function that happens to
-			// contain the call (a handler may be split or renamed)
-			return armNames[r.arm] + ":ErrorCode(" + argDescr(arg) + ")", true
+			// keyed by the message arm: the defect is in ErrorCode (it appends ReadyForQuery whatever failed), every
+			// failing message of the arm shows it; which constructor built the error does not identify a different fault
+			return armNames[r.arm] + ":ErrorCode", true
 		}
 	}
 	return "", false
